@@ -461,3 +461,99 @@ def rule_sandwich_orientation(ctx):
                       f"the energy network is aligned as {seq} (top to bottom): the operator's row indices meet {seq[0]} and its column indices {seq[-1]}, but the conjugated "
                       f"state is {sorted(conj)}: the sandwich evaluates <psi|H^T|psi>", where=f"{init.module.relpath}:{c.lineno}", operand="ket-on-rows"))
     return r
+
+
+def rule_skip_licence_intact(ctx):
+    r = RuleResult(
+        "skip-licence-intact",
+        "DMRG.solve skips re-canonization when the previous sweep ran the other way; that licence describes the state as "
+        "the previous sweep left it. Every call in the sweep loop that surely rewrites the tensors of the state (self._k) "
+        "between two sweeps — e.g. the noisy bond expansion of the one-site algorithm — is accompanied by a write of the skip "
+        "flag that does not come from the direction memory (it forces / re-decides canonization)",
+    )
+    f = ctx.prog.func("quimb.tensor.tn1d.dmrg", "DMRG.solve")
+    if f is None:
+        raise AnalysisError("skip-licence-intact: DMRG.solve not found")
+    mps = ctx.prog.cls("quimb.tensor.tn1d.core", "MatrixProductState")
+    loops = [n for n in _own_walk(f.node) if isinstance(n, (ast.For, ast.While))]
+    lp = None
+    for l_ in loops:
+        if any(isinstance(c, ast.Call) and getattr(c.func, "attr", None) == "sweep" for c in _own_walk(l_)):
+            lp = l_
+    if lp is None:
+        raise AnalysisError("skip-licence-intact: no sweep loop in DMRG.solve")
+    sweeps = [c for c in _own_walk(lp) if isinstance(c, ast.Call) and getattr(c.func, "attr", None) == "sweep"]
+    # the local that carries the skip flag into the sweep (through the options dict)
+    flag = None
+    for a in _own_walk(lp):
+        if isinstance(a, ast.Assign) and isinstance(a.value, ast.Dict):
+            for k, v in zip(a.value.keys, a.value.values):
+                if isinstance(k, ast.Constant) and k.value == "canonize" and isinstance(v, ast.Name):
+                    flag = v.id
+    for c in sweeps:
+        for kw in c.keywords:
+            if kw.arg == "canonize" and isinstance(kw.value, ast.Name):
+                flag = kw.value.id
+    if flag is None:
+        raise AnalysisError("skip-licence-intact: the canonize flag passed to sweep() is not a local of DMRG.solve")
+    flag_writes = [a for a in _own_walk(lp) if isinstance(a, (ast.Assign, ast.AugAssign)) and any(isinstance(t, ast.Name) and t.id == flag for t in (a.targets if isinstance(a, ast.Assign) else [a.target]))]
+    if not flag_writes:
+        raise AnalysisError("skip-licence-intact: the canonize flag is never written in the sweep loop")
+    flag_writes.sort(key=lambda a: a.lineno)
+    primary = flag_writes[0]
+    first_sweep = min(c.lineno for c in sweeps)
+
+    def block_of(node, body=None, path=()):
+        """the statement list that directly contains `node`'s statement, and the chain of enclosing statements."""
+        body = lp.body if body is None else body
+        for st in body:
+            if any(x is node for x in ast.walk(st)):
+                for fld in ("body", "orelse", "finalbody"):
+                    sub = getattr(st, fld, None)
+                    if isinstance(sub, list) and any(any(x is node for x in ast.walk(s_)) for s_ in sub if isinstance(s_, ast.stmt)):
+                        return block_of(node, sub, path + (st,))
+                return body, st, path
+        return None, None, path
+
+    n = 0
+    for c in _own_walk(lp):
+        if not (isinstance(c, ast.Call) and isinstance(c.func, ast.Attribute) and isinstance(c.func.value, ast.Attribute)
+                and c.func.value.attr == "_k" and isinstance(c.func.value.value, ast.Name) and c.func.value.value.id == "self"):
+            continue
+        if c.lineno > first_sweep:
+            continue
+        m = mps.find(c.func.attr)
+        if m is None:
+            continue
+        kwflags = {kw.arg: const_value(kw.value, "?") for kw in c.keywords if kw.arg}
+        s = ctx.eff.summary(m, {k: v for k, v in kwflags.items() if v in (True, False)}, cls=mps)
+        sure = [mu for mu in s.mut.get("self", ()) if mu.sure]
+        if not sure:
+            continue
+        n += 1
+        construct = f"DMRG.solve:{c.func.attr}"
+        body, st, path = block_of(c)
+        # a write of the flag other than the memory-derived one, in the same block as the rewrite or later at an enclosing level
+        ok = False
+        for w in flag_writes:
+            if w is primary:
+                continue
+            if w.lineno < primary.lineno:
+                continue  # overwritten by the memory-derived decision
+            wbody, wst, wpath = block_of(w)
+            # (i) anywhere inside the block that holds the rewrite (it is re-decided whenever that block runs), or
+            # (ii) later, at a level that encloses the rewrite (it is re-decided on every path through the rewrite)
+            inside_same_block = any(any(x is w for x in ast.walk(s_)) for s_ in body)
+            encloses = w.lineno > c.lineno and all(p in path for p in wpath)
+            if inside_same_block or encloses:
+                ok = True
+        if ok:
+            r.ok(construct, sample={"rewrite": src_of(c)[:60], "flag": flag, "re-decided": True})
+        else:
+            r.bad(Finding("skip-licence-intact", "DMRG.solve",
+                          f"`{src_of(c)[:70]}` rewrites the state's tensors between two sweeps, but `{flag}` is decided from the direction memory alone: "
+                          "after an opposite-direction sweep the next sweep runs without re-canonizing a state that is no longer canonical "
+                          "(local eigenproblems are solved against a non-identity norm: energies rise, the variational bound is lost)",
+                          where=f"{f.module.relpath}:{c.lineno}", operand=c.func.attr))
+    r.floor(n, 1, "state-rewriting calls between sweeps in DMRG.solve")
+    return r
